@@ -11,7 +11,9 @@ rl.on('line', (line) => {
     const reads = [];
     const target = JSON.parse(JSON.stringify(req.inputs));
     const proxy = new Proxy(target, {
-      get(t, k, r) { if (typeof k === 'string') reads.push(k); return Reflect.get(t, k, r); },
+      // members inherited from Object.prototype (valueOf / toString probed by + and template conversion) are not
+      // fields of the inputs object: not recorded unless the object really has such a field
+      get(t, k, r) { if (typeof k === 'string' && (!(k in Object.prototype) || Object.prototype.hasOwnProperty.call(t, k))) reads.push(k); return Reflect.get(t, k, r); },
       has(t, k) { if (typeof k === 'string') reads.push(k); return Reflect.has(t, k); },
     });
     // universal mode (kind realworld): every property of inputs / self / runtime exists and is again a universal
